@@ -17,7 +17,7 @@ func init() {
 	fw.Register(&fw.Prop{
 		ID: "C19",
 		Rule: "sequential reference-model monitor (two integer counters): seeded histories of 1..60 Accumulate calls with batch sizes 1..50 and labels from {small integer sets, arbitrary reals, values containing NaN (never equal to anything), all-matching and all-differing batches}, interleaved with invalid calls (nil tensors, rank 0 / rank 2, mismatched lengths, foreign tensor) and a Result call after EVERY step. Result must equal matched/total exactly (0 before any accepted call), lie in [0,1], and be unchanged by a rejected call; error <=> invalid. The same data are then replayed into fresh Accuracy objects under 3..6 random re-partitions and as one single batch: the final Result must be bit-identical. " +
-			"Non-trivial: >= 2 accepted batches with both matching and non-matching positions; distinct = (label class, number of batches, number of invalid calls, has a zero-match batch after a matching one).",
+			"Non-trivial: >= 2 accepted batches with both matching and non-matching positions; distinct = (label class, number of batches, number of invalid calls, has a zero-match batch after a matching one). Later additions: batches of 100..999 positions; histories of 1100..1700 tiny batches on one object; a label class whose equality the statement leaves open (+-Inf, differences below 1e-240), decided only by partition invariance, range and rejected-call neutrality, with many batches of size 1.",
 		Assumptions: []string{"prediction/target values at a position are either bit-identical or differ by >= 1e-3 (or one of them is NaN)"},
 		FloorQuick:  1200, FloorThor: 2000,
 		Run: runC19,
